@@ -23,10 +23,10 @@ type c07client struct {
 }
 
 type c07cfg struct {
-	seq     string
-	gap     time.Duration
-	clients []c07client
-	rollout bool
+	seq      string
+	gap      time.Duration
+	clients  []c07client
+	rollout  bool
 	inflight bool // a request is being served (for 900ms) when the sequence starts
 }
 
